@@ -3,6 +3,11 @@ from collections import OrderedDict
 
 import numpy as np
 
+# settable attributes of numpy arrays: assigning them (numpy does so itself,
+# e.g. `mask.flat = newmask`) changes the array, it does not define a
+# netCDF attribute
+_array_attrs = ('flat', 'shape', 'dtype', 'strides', 'real', 'imag')
+
 
 class PseudoNetCDFVariable(np.ndarray):
     """
@@ -143,7 +148,7 @@ class PseudoNetCDFVariable(np.ndarray):
         Set attributes (aka properties) and identify user-defined attributes.
         """
         if k[:1] != '_' and \
-           k not in ('dimensions', 'typecode'):
+           k not in ('dimensions', 'typecode') + _array_attrs:
             if k not in self._ncattrs:
                 self._ncattrs += (k, )
         object.__setattr__(self, k, v)
@@ -385,7 +390,7 @@ class PseudoNetCDFMaskedVariable(PseudoNetCDFVariable, np.ma.MaskedArray):
         Set attributes (aka properties) and identify user-defined attributes.
         """
         if k[:1] != '_' and \
-           k not in ('dimensions', 'typecode', 'mask'):
+           k not in ('dimensions', 'typecode', 'mask') + _array_attrs:
             if k not in self._ncattrs:
                 self._ncattrs += (k, )
         np.ma.MaskedArray.__setattr__(self, k, v)
